@@ -15,7 +15,10 @@ import (
 
 // ---- the request grammar -------------------------------------------------
 //
-// request := cfg x path(cfg) x method x content-type x header-set x body
+// request := cfg x path(cfg) x method x content-type x header-set x body x writer x delivery
+//
+// (writer: the ResponseWriter the server is handed, writer.go; delivery: how the
+// body bytes are announced and handed out by the transport, delivery.go)
 //
 // Every axis lists its "base" (plain valid) value first; the base content type
 // and body depend on the kind of the addressed method.
@@ -299,11 +302,12 @@ type Case struct {
 	Hdr       []hv   `json:"hdr"`
 	BodyName  string `json:"body_name"`
 	BodyHex   string `json:"body_hex"`
-	Writer    string `json:"writer,omitempty"` // name of the ResponseWriter the server is handed (writer.go); empty = the plain recorder
+	Writer    string `json:"writer,omitempty"`   // name of the ResponseWriter the server is handed (writer.go); empty = the plain recorder
+	Delivery  string `json:"delivery,omitempty"` // how the body is announced and handed out (delivery.go); empty = Content-Length, all at once
 }
 
 func (c *Case) key() string {
-	return fmt.Sprintf("%s|%s|%s|%s|%s|%s|%s", c.Cfg, c.Method, c.Path, c.CTName, c.HdrName, c.BodyName, c.Writer)
+	return fmt.Sprintf("%s|%s|%s|%s|%s|%s|%s|%s", c.Cfg, c.Method, c.Path, c.CTName, c.HdrName, c.BodyName, c.Writer, c.Delivery)
 }
 
 func cfgByName(n string) *cfgVal {
@@ -315,13 +319,13 @@ func cfgByName(n string) *cfgVal {
 	return nil
 }
 
-// index tuple: cfg, path, method, ct, hdr, body, writer
-type tuple [7]int
+// index tuple: cfg, path, method, ct, hdr, body, writer, delivery
+type tuple [8]int
 
-const nAxes = 7
+const nAxes = 8
 
 func axisSizes() [nAxes]int {
-	return [nAxes]int{len(cfgs), len(paths), len(methods), len(cts), len(hdrs), len(bodies), len(writers)}
+	return [nAxes]int{len(cfgs), len(paths), len(methods), len(cts), len(hdrs), len(bodies), len(writers), len(delivs)}
 }
 
 func indexOfCT(name string) int {
@@ -374,6 +378,9 @@ func (t tuple) toCase() *Case {
 		CTName: ct.Name, CT: ct.V, CTPresent: ct.Present, HdrName: h.Name, Hdr: h.H, BodyName: b.Name, BodyHex: hex.EncodeToString(b.B)}
 	if t[6] != 0 {
 		c.Writer = writers[t[6]].Name
+	}
+	if t[7] != 0 {
+		c.Delivery = delivs[t[7]].Name
 	}
 	return c
 }
